@@ -25,6 +25,17 @@ impl FileImage {
         let v: Vec<usize> = vers.split(".").map(|s| usize::from_str(s).expect("bad version format")).collect();
         (v[0],v[1],v[2])
     }
+    /// same as `version_tuple`, but returns `None` if the string is not in the form X.Y.Z
+    pub fn try_version_tuple(vers: &str) -> Option<(usize,usize,usize)> {
+        let mut v: Vec<usize> = Vec::new();
+        for s in vers.split(".") {
+            v.push(usize::from_str(s).ok()?);
+        }
+        if v.len() < 3 {
+            return None;
+        }
+        Some((v[0],v[1],v[2]))
+    }
     pub fn ordered_indices(&self) -> Vec<usize> {
         let copy = self.chunks.clone();
         let mut idx_list = copy.into_keys().collect::<Vec<usize>>();
@@ -161,7 +172,13 @@ impl FileImage {
     pub fn from_json(json_str: &str) -> Result<FileImage,DYNERR> {
         let parsed = json::parse(json_str)?;
         let fimg_version = FileImage::parse_str("fimg_version",&parsed)?;
-        let vers_tup = Self::version_tuple(&fimg_version);
+        let vers_tup = match Self::try_version_tuple(&fimg_version) {
+            Some(tup) => tup,
+            None => {
+                log::error!("file image version is not in the form X.Y.Z");
+                return Err(Box::new(Error::FileImageFormat));
+            }
+        };
         if vers_tup < (2,0,0) {
             log::error!("file image v2 or higher is required");
             return Err(Box::new(Error::FileFormat));
